@@ -86,7 +86,8 @@ class H1Client:
             if self.progress.get(r["rid"]) != prog:
                 self.progress[r["rid"]] = prog
                 changed.append(dict(prog, app=r["rid"]))
-        self.sess.trace.log("c_send", upto=upto, n=len(data), reqs=changed)
+        cerr = upto > self.sess.script.get("cerr_at", 1 << 30)
+        self.sess.trace.log("c_send", upto=upto, n=len(data), reqs=changed, cerr=cerr)
         if data:
             self.sess.env.feed(data)
 
@@ -122,14 +123,20 @@ class H1Client:
                     kind="head",
                     app=rid,
                     status=ev["status"],
-                    headers=ev["headers"],
+                    headers=[[n, v, n.lower()] for n, v in ev["headers"]],
                     framing=ev["framing"],
                     ver=ev["version"],
                     close=ev["close"],
                     cl=ev["cl"],
                 )
             elif k == "info":
-                log("wire", kind="info", app=rid, status=ev["status"], headers=ev["headers"])
+                log(
+                    "wire",
+                    kind="info",
+                    app=rid,
+                    status=ev["status"],
+                    headers=[[n, v, n.lower()] for n, v in ev["headers"]],
+                )
             elif k == "data":
                 exp = self.sess.resp.expected(rid, ev["off"], len(ev["data"]))
                 log(
@@ -141,7 +148,7 @@ class H1Client:
                     match=(exp == ev["data"]),
                 )
             elif k == "trailer":
-                log("wire", kind="trailers", app=rid, headers=ev["headers"])
+                log("wire", kind="trailers", app=rid, headers=[[n, v, n.lower()] for n, v in ev["headers"]])
             elif k == "end":
                 log("wire", kind="end", app=rid)
                 rid = self.current_rid()
